@@ -142,9 +142,15 @@ func (r Run) exec1(timeout time.Duration) Result {
 // Exec runs crd under the watchdog. A timeout is re-run once, alone in this
 // process, before it is believed, so that machine load cannot fake a hang.
 func (r Run) Exec() Result {
-	res := r.exec1(watchdog())
+	// work proportional to the input is not a hang: one extra second per 20 KB of input
+	size := len(r.Stdin)
+	for _, f := range r.Files {
+		size += len(f)
+	}
+	w := watchdog() + time.Duration(size/20000)*time.Second
+	res := r.exec1(w)
 	if res.TimedOut {
-		res = r.exec1(watchdog() * 2)
+		res = r.exec1(w * 2)
 	}
 	return res
 }
